@@ -53,8 +53,14 @@ def generate(rng, tier) -> dict:
     counts = [rng.choice([1, 2, rng.randint(1, mx // nfiles), rng.randint(1, mx // nfiles)]) for _ in range(nfiles)]
     spec = {"nbits": nbits, "nchans": nchans, "nsamps": counts, "pad": [rng.randint(0, 5) for _ in counts],
             "vseed": rng.randrange(1 << 16), "mode": "small"}
+    if rng.random() < (0.02 if tier == "quick" else 0.06):
+        nchans = rng.choice([c for c in (64, 128, 256) if (c * nbits) % 8 == 0])
+        total = rng.randint(300, 1500)
+        counts = [total] if nfiles == 1 else [total // 3, total - total // 3]
+        spec.update({"nchans": nchans, "nsamps": counts, "pad": [0] * len(counts), "big": True})
     if name == "dedisperse":
         spec.update(T.DISP_BAND)
+        spec["foff"] = -10.0 * 16 / max(16, nchans) if spec.get("big") else T.DISP_BAND["foff"]
     N = sum(counts)
     if rng.random() < 0.45:
         start, nsamps = 0, None
@@ -66,7 +72,7 @@ def generate(rng, tier) -> dict:
     if name == "read_chan":
         params = {"ichan": rng.randrange(nchans)}
     if name == "dedisperse":
-        params = {"dm": T.pick_dm(rng, nchans, ns)}
+        params = {"dm": T.pick_dm(rng, nchans, ns, band={k: spec.get(k, T.DISP_BAND[k]) for k in T.DISP_BAND})}
     ops = []
     for _ in range(2):
         ops.append({"gulp": max(1, rng.choice([1, 2, 3, rng.randint(1, max(1, ns)), ns, ns + rng.randint(1, 4), max(1, ns // 2), max(1, ns // 3)]))})
@@ -208,6 +214,8 @@ def execute(sc, ctx) -> None:
     N, nbits, nchans = fs.nsamples, spec["nbits"], spec["nchans"]
     if nbits < 8:
         ctx.probe("sub-byte")
+    if spec.get("big"):
+        ctx.probe("big-blocks")
     ctx.sig += [name, f"nbits{nbits}", "multi" if len(spec["nsamps"]) > 1 else "single"]
     bounds = list(np.cumsum(spec["nsamps"]))[:-1]
 
